@@ -629,10 +629,27 @@ func r186(c *Ctx, r *R) {
 			continue
 		}
 		count := map[lockID]int{}
-		for _, a := range li.acquires {
-			_, id := lockOp(a.Common())
-			count[id]++
+		// the function and the pieces of it that live in single-caller
+		// helpers (a critical section moved into a helper is still one)
+		pieces := []*ssa.Function{f}
+		for i := 0; i < len(pieces) && i < 8; i++ {
+			for _, ci := range callsIn(pieces[i]) {
+				if h := ci.Common().StaticCallee(); h != nil && h.Blocks != nil && singleCallSite[h] == ci {
+					pieces = append(pieces, h)
+				}
+			}
 		}
+		for _, g := range pieces {
+			gi := w.infos[g]
+			if gi == nil {
+				continue
+			}
+			for _, a := range gi.acquires {
+				_, id := lockOp(a.Common())
+				count[id]++
+			}
+		}
+		_ = li
 		for id, n := range count {
 			r.Check(n == 1, "atomic:"+t[1]+":"+lockName(id), f.Pos(), t[1]+" reads and updates its guarded state in a single critical section of "+lockName(id),
 				fmt.Sprintf("%s acquires %s %d times: the state it tested in the first critical section may have changed when it acts in the next one (two concurrent callers both pass the test: duplicate alerts / lost operations)", t[1], lockName(id), n))
